@@ -33,6 +33,10 @@ class OStr:
             if o.name == self.name:
                 return SBool(z3.And(zint(self.clen) == zint(o.clen), zint(self.blen) == zint(o.blen)))
             raise Unsupported("comparison of distinct opaque strings")
+        if isinstance(o, str):
+            if o == "":
+                return SBool(zint(self.clen) == 0)
+            raise Unsupported("comparison of an opaque string with a literal")
         return False
 
     def __hash__(self):
@@ -48,6 +52,8 @@ class SStr:  # replaced by sstr.SStr when that module is loaded
 def decode_bytes(b, encoding, errors):
     from .models import Blob, normalise
     ps = normalise(b.pieces)
+    if not any(isinstance(p, Blob) for p in ps) and all(isinstance(p, int) for p in ps):
+        return bytes(ps).decode(encoding, errors)
     if len(ps) == 1 and isinstance(ps[0], Blob) and ps[0].src.endswith("#utf8"):
         p = ps[0]
         if z3.is_true(z3.simplify(zint(p.off) == 0)):
